@@ -39,8 +39,9 @@ def gen(r, tier, i):
     # no structural operation after the rebuild point: there the order in which one batch's
     # updates are applied (not asserted by any property) would decide the outcome
     script = {t: ops for t, ops in structw.gen_script(r, maxops=6).items() if float(t) < run_len - 1}
-    return {'cell_ts': r.choice([0.5, 1.0, 1.5, 0.75]), 'dir_as': r.choice(['process', 'process', 'step']),
-            'script': script, 'base': r.choice([[], [], ['env']]),
+    flowless0 = r.random() < 0.2
+    return {'cell_ts': r.choice([0.5, 1.0, 1.5, 0.75]), 'dir_as': 'process' if flowless0 else r.choice(['process', 'process', 'step']),
+            'initial_flowless': flowless0, 'script': script, 'base': r.choice([[], [], ['env']]),
             'deriver': r.choice([None, 'steps', 'processes']), 'viewers': r.random() < 0.3, 'poke': r.random() < 0.4,
             'viewer_ts': 0.5, 'run': run_len, 'extra': 3.0}
 
